@@ -1754,7 +1754,14 @@ class EntityTemplate(Block):
                 # as a concurrent block outside of the process,
                 # it is a driver/user of its own
                 current_ctx = always_expr
-                always_expr.visit_objects(check_usage)
+
+                def check_always(obj, access):
+                    assert not isinstance(
+                        obj, Variable
+                    ), "variables cannot be used in always expressions (they are evaluated outside of the process)"
+                    return check_usage(obj, access)
+
+                always_expr.visit_objects(check_always)
                 current_ctx = ctx
                 Context.visit_objects(ctx, check_usage)
             else:
